@@ -89,8 +89,17 @@ def gen_tree(rng, root, name):
         parent = rng.choice(dirs)
         d = os.path.join(parent, rng.choice(['sub', 'vendor', 'x.mib', 'IF-MIB', 'deep']) + str(len(dirs)))
         dirs.append(d)
-    for d in dirs:
-        os.makedirs(os.path.join(root, d), exist_ok=True)
+    links = []
+    for i, d in enumerate(dirs):
+        if d and rng.random() < 0.2:
+            # a sub-directory that is a symbolic link to a directory elsewhere: searched like any other
+            target = os.path.join(os.path.dirname(root), 'linked%d' % i)
+            os.makedirs(target)
+            os.symlink(target, os.path.join(root, d))
+            links.append(d)
+        else:
+            os.makedirs(os.path.join(root, d), exist_ok=True)
+    gen_tree.links = links
     pool = sorted(liberal_variants(name))
     decoys = [name + 'X', 'X' + name, name + '.bak', name.lower() + '.text', name[:-1] if len(name) > 1 else 'zz', 'README']
     for _ in range(rng.randint(0, 5)):
@@ -106,9 +115,19 @@ def gen_tree(rng, root, name):
         with open(p, 'wb') as f:
             f.write(CONTENTS[cid])
         mt = 1500000000 + rng.randint(0, 1000)
-        os.utime(p, (mt, mt))
+        # (the readers report whole seconds: the fraction a file system keeps is cut off)
+        ns = mt * 10 ** 9 + rng.choice([0, 250000000, 999999999])
+        os.utime(p, ns=(ns, ns))
         files[os.path.join(d, fn)] = (cid, mt)
     return files
+
+
+def tree_dirs(root):
+    """the directories below root (relative), following links - by an independent walk"""
+    out = []
+    for cur, sub, _ in os.walk(root, followlinks=True):
+        out.append(os.path.relpath(cur, root))
+    return out
 
 
 def run_filereader(rng, name, opts, use_index_entry):
@@ -149,6 +168,13 @@ def run_filereader(rng, name, opts, use_index_entry):
         r = FileReader(root).setOptions(originalMatching=opts['original'], uppercaseMatching=opts['uppercase'],
                                         lowcaseMatching=opts['lowcase'], fuzzyMatching=opts['fuzzy'], **kw)
         dirs = r.getSubdirs(root, True, True)
+        link_idx = [i for i, d in enumerate(dirs) if os.path.islink(d)]
+        # every directory of the tree, linked ones included, is searched
+        want_dirs = sorted(os.path.normpath(os.path.join(root, d_)) for d_ in tree_dirs(root))
+        if sorted(os.path.normpath(d) for d in dirs) != want_dirs:
+            missing_dirs = sorted(set(want_dirs) - set(os.path.normpath(d) for d in dirs))
+        else:
+            missing_dirs = []
         listing = []
         for d in dirs:
             row = []
@@ -172,8 +198,9 @@ def run_filereader(rng, name, opts, use_index_entry):
             got, exact = 'toolarge', True
         except Exception:
             got, exact = 'indexerror', True           # any exception that is not the package's
-        req = dict(opts, op='filereader', name=name, exts=EXTS, index=index, useIndex=True, dirs=listing, large=large, indexJunk=list(junk))
+        req = dict(opts, op='filereader', name=name, exts=EXTS, index=index, useIndex=True, dirs=listing, large=large, indexJunk=list(junk), links=link_idx)
         present = {os.path.basename(k) for k in files}
+        run_filereader.missing_dirs = [os.path.relpath(d, root) for d in missing_dirs]
         return got, exact, req, present, index
     finally:
         shutil.rmtree(base, ignore_errors=True)
@@ -380,6 +407,9 @@ def run(ctx):
         res.case(('dir', req['dirs'], name, sorted(opts.items()), index), bool(present))
         res.count('filereader:' + (got if isinstance(got, str) else 'found'))
         indexed = any(k == name for k, _ in index)
+        if run_filereader.missing_dirs:
+            res.oracle_failures.append({'key': 'not-found', 'what': 'sub-directories %s of the tree are not searched' % run_filereader.missing_dirs,
+                                        'input': {'filereader': dict(req, expect_dirs=len(req['dirs']) + len(run_filereader.missing_dirs))}})
         if isinstance(got, dict):
             if not exact:
                 res.oracle_failures.append({'key': 'exact-content', 'what': 'FileReader returned altered content/mtime/name for %s' % name,
@@ -522,13 +552,21 @@ def replay(payload):
         req = inp['filereader']
         from pysmi.reader.localfile import FileReader
         root = os.path.join(base, 'mibs')
-        for i, row in enumerate(req['dirs']):
+        ndirs = max(len(req['dirs']), req.get('expect_dirs', 0))
+        for i in range(ndirs):
+            row = req['dirs'][i] if i < len(req['dirs']) else []
             d = os.path.join(root, *(['d%d' % k for k in range(1, i + 1)]))
-            os.makedirs(d, exist_ok=True)
+            if i and (i in req.get('links', []) or i >= len(req['dirs'])):
+                # (recorded as a link, or a directory the reader did not search: replayed as a linked directory)
+                target = os.path.join(base, 'linked%d' % i)
+                os.makedirs(target)
+                os.symlink(target, d)
+            else:
+                os.makedirs(d, exist_ok=True)
             for fn, cid, mt in row:
                 with open(os.path.join(d, fn), 'wb') as f:
                     f.write(CONTENTS[cid])
-                os.utime(os.path.join(d, fn), (mt, mt))
+                os.utime(os.path.join(d, fn), ns=(mt * 10 ** 9 + 250000000,) * 2)
         if req['index']:
             with open(os.path.join(root, '.index'), 'wb') as f:
                 f.write(b'\nloneword\n' + bytes(req.get('indexJunk', [])))
@@ -541,11 +579,15 @@ def replay(payload):
                                         lowcaseMatching=req['lowcase'], fuzzyMatching=req['fuzzy'], **kw)
         present = {fn for row in req['dirs'] for fn, _, _ in row}
         indexed = [v for k, v in req['index'] if k == req['name']]
+        if 'expect_dirs' in req:
+            got_dirs = r.getSubdirs(root, True, True)
+            if len(got_dirs) != req['expect_dirs']:
+                return {'fails': True, 'what': '%d of %d directories searched' % (len(got_dirs), req['expect_dirs'])}
         try:
             info, data = r.getData(req['name'])
             with open(info.path[len('file://'):], 'rb') as f:
                 raw = f.read()
-            ok = data == decode(raw) and (info.file in liberal_variants(req['name']) or indexed) and \
+            ok = info.mtime == os.stat(info.path[len('file://'):])[8] and type(info.mtime) is int and data == decode(raw) and (info.file in liberal_variants(req['name']) or indexed) and \
                 (not indexed or info.file == indexed[-1])
             return {'fails': not ok, 'what': 'returned %s' % info.file}
         except error.PySmiReaderFileNotFoundError:
